@@ -111,6 +111,9 @@ def validate(ctx, tier, seed):
 
 
 def replay(ctx, v):
+    if v.get('canon'):
+        out = ctx.native().call({'cmd': 'compile', 'text': v['text'], 'mode': v['mode'], 'sort': 'none'}, timeout=120)
+        return 'reproduced', out
     script = v['replay']
     nat = ctx.native(tuple(f for f in script['features'] if f != 'HashSet')) if script.get('features') else ctx.native()
     out = nat.call(script)
@@ -120,6 +123,9 @@ def replay(ctx, v):
 
 
 def key(v):
+    if v.get('canon'):
+        import hashlib
+        return 'canon:%s:%s' % (v['mode'], hashlib.sha1(v['text'].encode()).hexdigest()[:12])
     return v['kind'] + ':' + json.dumps(v['replay']['steps'], sort_keys=True) + (':' + '+'.join(v['replay']['features']) if v['replay'].get('features') else '')
 
 
@@ -133,12 +139,16 @@ ASSUMPTIONS = [
 
 def spec(ctx, tier, seed, prop):
     ctx.engine()
+    def extra(ctx_):
+        from . import c09
+        return c09.canonicity_run(ctx_, tier, seed)
     return {
+        'extra': extra if prop == 'C06' else None,
         'jobs': bddjobs.make_jobs(Job, tier, seed, prop),
         'level': 'model_checking',
         'assumptions': ASSUMPTIONS,
         'bounds': 'operands = all functions of n=2 variables (complete, all operations, all pairs); n=3 with one operand symbolic and the other drawn from VERIF_SEED; '
                   'operation histories of length 2 (quick) / 3 (thorough) on one store with operands chosen among all issued handles, incl. re-import of the node list; '
                   'thorough adds all pairs at n=3 for and/xor and an n=4 family; restriction variable in 0..n, both values',
-        'outside': 'n>=4 beyond the seeded family; histories longer than 3; bridge imports (biodivine) are covered under C09 by translation validation',
+        'outside': 'n>=4 beyond the seeded family; histories longer than 3; bridge conversions are decided per compiled instance (coverage.bridge_*), not for all inputs',
     }
